@@ -1,5 +1,5 @@
 /*VERIF
-{ "tu": "src/shims/lock.c", "enforce": "_dispatch_thread_event_signal", "props": ["C05", "C10", "C01"],
+{ "tu": "src/shims/lock.c", "enforce": "_dispatch_thread_event_signal", "props": ["C05", "C10", "C01", "C02"],
   "nondet_volatile": true, "timeout": 120,
   "stub_note": "_dispatch_futex_wake: logged kernel wake" }
 VERIF*/
